@@ -824,7 +824,7 @@ impl DnsListenerHandler {
                     let mut in_reply_bytes = Vec::with_capacity(2 + serialised.len());
                     in_reply_bytes.extend((serialised.len() as u16).to_be_bytes().iter());
                     in_reply_bytes.extend(serialised);
-                    if let Err(io) = sock.write(&in_reply_bytes).await {
+                    if let Err(io) = sock.write_all(&in_reply_bytes).await {
                         log::warn!("[{:x}] Failed to send DNS reply: {}", msg.in_query.qid, io);
                         IN_QUERY_RESULT
                             .with_label_values(&["TCP", "send fail"])
